@@ -403,10 +403,16 @@ func dump(outs []fakesock.Out) string {
 
 func genCase(t *rapid.T) (Case, world.Features) {
 	s := world.GenSpec(t)
+	// in half of the cases every list of object pointers may hold null entries (response
+	// indices then differ from the indices among the objects that are resolved)
+	nils := rapid.Bool().Draw(t, "nilentries")
 	for i := range s.Objects {
 		for j := range s.Objects[i].Fields {
 			if rapid.IntRange(0, 3).Draw(t, "forceerr") > 0 {
 				s.Objects[i].Fields[j].HasErr = true
+			}
+			if nils && s.Objects[i].Fields[j].Ret == "listpobj" {
+				s.Objects[i].Fields[j].NilElem = true
 			}
 		}
 	}
@@ -465,6 +471,9 @@ func genCase(t *rapid.T) (Case, world.Features) {
 	c := Case{Spec: s, Query: q, Modes: m, Sched: rapid.SampledFrom(sched.Names).Draw(t, "sched"), Text: q.Text(),
 		Secret: fmt.Sprintf("SECRET%04d", rapid.IntRange(0, 9999).Draw(t, "secret")), InRerunner: rapid.Bool().Draw(t, "rerunner")}
 	nf := rapid.IntRange(0, 6).Draw(t, "nfaults")
+	if nf == 0 && rapid.IntRange(0, 3).Draw(t, "nofault") > 0 {
+		nf = 2 // cases without any failing resolver are kept, but rarely
+	}
 	for i := 0; i < nf && len(candidates) > 0; i++ {
 		cd := candidates[rapid.IntRange(0, len(candidates)-1).Draw(t, "which")]
 		mod := rapid.IntRange(1, 2).Draw(t, "mod")
